@@ -314,6 +314,17 @@ func genA(check string) func(r *Rng, tier string, p *Plan) {
 				}
 			}
 		}
+		if pr.dryToggle && r.Bool(0.3) {
+			// dry run is switched off and, later, back on (the configuration is then
+			// byte for byte what it was); sometimes twice
+			at := snap(r.I64n(span))
+			for k := 0; k < PickOf(r, 1, 1, 2); k++ {
+				p.Add(Op{K: "reload", At: at, S: "dry_run", N: 0})
+				at += PickOf(r, ticker, 200_000, 700_000)
+				p.Add(Op{K: "reload", At: at, S: "dry_run", N: 1})
+				at += PickOf(r, ticker, 200_000, 700_000)
+			}
+		}
 		// stalls
 		if r.Bool(pr.parkSender) {
 			a := snap(r.I64n(span))
